@@ -321,6 +321,9 @@ func (k lkind) lean() string {
 	case kBig:
 		return "Int"
 	}
+	if s, ok := ifaceLean(k); ok { // stage 11 (loops_iface.go)
+		return s
+	}
 	die("lkind.lean")
 	return ""
 }
@@ -555,6 +558,9 @@ func (t *loopTr) kindOf(ty types.Type, at ast.Node) lkind {
 		if types.Identical(ty, types.Universe.Lookup("error").Type()) {
 			return t.errKind()
 		}
+	}
+	if k, ok := t.ifaceKindOf(ty, at); ok { // stage 11 (loops_iface.go)
+		return k
 	}
 	t.fail(at, "type %s is outside the translated subset", ty)
 	return 0
